@@ -70,6 +70,12 @@ def s_arity(tier):
             for rule in ({"reduce": [coll, bi, 0]}, {"reduce": [coll, {"var": "current"}, bi]}, {"map": [coll, bi]}, {"filter": [coll, bi]}, {"all": [coll, bi]}, {"some": [coll, bi]}, {"none": [coll, bi]},
                          {"if": [coll, bi, 1]}, {"if": [coll, 1, bi]}, {"and": [coll, bi]}, {"or": [coll, bi]}, {"if": [bi]}, {"and": [bi]}, {"var": ["zz", bi]}, {"cat": [coll, bi]}):
                 out.append(("model", "lazy-position", 0, app(rule, {"a": 1})))
+    arr_makers = [({"var": "l2"}, {"l2": [1, 2]}), ({"var": "l0"}, {"l0": []}), ({"var": "lb"}, {"lb": [True]}), ({"var": "ln"}, {"ln": [None]}), ({"var": "ls"}, {"ls": ["a", "b", "c"]}), ({"merge": [[3, 7]]}, None),
+                  ({"map": [[1, 2], {"var": ""}]}, None), ({"filter": [[1, 2], False]}, None), ({"var": ""}, [3, 7]), ({"var": "l1"}, {"l1": [5]}), ({"if": [True, [1, 2]]}, None), ({"var": "nest"}, {"nest": [[1, 2]]})]
+    for opk in [o for o in ALLOPS]:
+        for mk, dd in arr_makers:
+            out.append(("model", "unbracketed-array", 0, app({opk: mk}, dd)))
+            out.append(("model", "unbracketed-array", 0, app({opk: [mk]}, dd)))
     bare = [1, 0, "a", "", None, True, 1.5, {"var": "a"}, {"a": 1}, {}, {"log": "x"}, "abc", -1, {"unknown": 1}] + bad_inner
     for k in ALLOPS:
         for x in bare:
@@ -193,6 +199,17 @@ def s_control(g, tier):
             v_ = {"var": [k_, dflt]}
             out += [app({"or": [v_, "later"]}, d), app({"and": [v_, "later"]}, d), app({"or": ["", v_, "later"]}, d), app({"and": [1, v_, v_]}, d), app({"if": [v_, "T", "F"]}, d), app({"or": [v_]}, d),
                     app({"or": [v_, v_]}, {"a": 1, "t": 1}), app({"and": [v_, "later"]}, {"a": 0}), app({"or": [v_, "later"]}, {"a": {"b": 1}}), app({"!!": [v_]}, {"a": 1})]
+    for sub in (5e-324, 1e-310, 4e-320, -5e-324, 2.2250738585072014e-308, {"/": [1e-308, 10]}, {"var": "tiny"}):
+        for rule in ({"if": [sub, "yes", "no"]}, {"?:": [sub, "yes", "no"]}, {"or": [sub, {"log": "later"}]}, {"and": [sub, {"log": "later"}]}, {"!!": [sub]}, {"!": [sub]}, {"if": [0, 1, sub, 2, 3]},
+                     {"filter": [[1], sub]}, {"all": [[1], sub]}, {"some": [[1], sub]}, {"none": [[1], sub]}):
+            out.append(app(rule, {"tiny": 4e-320}))
+    shaped = [{"var": "b"}, {"==": [1]}, {"log": "boo"}, {"+": [1, 2]}, {"if": [True, "x"]}, {"unknown": 1}, [{"var": "b"}], {"var": "b", "x": 1}]
+    for sv in shaped:
+        dd = {"a": sv, "b": 5, "z": 0}
+        for rule in ({"or": [{"var": "a"}, "fallback"]}, {"and": [1, {"var": "a"}]}, {"or": [0, {"var": "a"}]}, {"and": [{"var": "a"}, {"var": "a"}]}, {"if": [{"var": "a"}]}, {"if": [0, 1, {"var": "a"}]},
+                     {"if": [1, {"var": "a"}, 2]}, {"?:": [{"var": "z"}, 1, {"var": "a"}]}, {"if": [{"var": "a"}, {"var": "a"}, 0]}, {"or": [{"var": "a"}]}, {"and": [{"var": "a"}]},
+                     {"map": [[1], {"var": ["zz", sv]}]}, {"reduce": [[1], {"var": "accumulator"}, {"var": "a"}]}, {"filter": [[sv], True]}, {"merge": [{"var": "a"}]}, {"cat": [{"var": "a"}]}):
+            out.append(app(rule, dd))
     kd = {"a": {"b": 1}, "a/b": 0, "x": {"y": 0}, "x/y": 5, "x~1y": "", "~0": 1, "1": "0", "0": "", "-1": [0], "2": {}, "t": "yes", "f": 0, "/": 0, "": {"": 1}}
     for key in ["a/b", "x/y", "x~1y", "~0", "/", "a/0", 1, 0, -1, 2, 3, [1], ["a/b"], "1", "0"]:
         c = {"var": key}
@@ -242,6 +259,13 @@ def s_truthy(g, tier):
         e = {"var": pth}
         out += [app({"!!": [e]}, dd), app({"!": [e]}, dd), app({"if": [e, "T", "F"]}, dd), app({"?:": [e, "T", "F"]}, dd), app({"and": [e, "next"]}, dd), app({"or": [e, "next"]}, dd),
                 app({"if": [False, 1, e, "T2", "F2"]}, dd), app({"filter": [[1], e]}, dd), app({"all": [[1], e]}, dd), app({"some": [[1], e]}, dd), app({"none": [[1], e]}, dd)]
+    folks = [{"email": "a@x"}, {"phone": 1}, {}, {"email": None, "phone": None}, {"email": "", "fax": 2}]
+    dpreds = [{"!": {"missing_some": [1, ["email", "phone"]]}}, {"!": [{"missing": ["email"]}]}, {"missing": ["email"]}, {"missing_some": [2, ["email", "phone", "fax"]]}, {"!!": [{"missing": ["phone", "fax"]}]},
+              {"in": ["email", {"missing": ["email", "phone"]}]}, {"==": [{"missing_some": [1, ["email"]]}, []]}, {"var": "email"}, {"!": [{"var": "phone"}]}, True, False, {"==": [1, 1]}, {"cat": ["", ""]}, {"merge": []}]
+    for pred in dpreds:
+        for q in ("filter", "all", "some", "none", "map"):
+            out.append(app({q: [{"var": "folks"}, pred]}, {"folks": folks})); out.append(app({q: [{"var": "folks"}, pred]}, {"folks": folks[1:] + folks[:1]}))
+            out.append(app({q: [{"var": "folks"}, pred]}, {"folks": list(reversed(folks))}))
     people = [{"name": "Ann", "tags": ["x"], "s": "0"}, {"name": "", "tags": [], "s": ""}, {"name": "0", "tags": [0], "s": "ab"}]
     for pth in ("name.0", "name.-1", "name.0.0", "name.1", "tags.0", "tags.-1", "s.0", "s.-1", "name", "-1", "0", "0.0"):
         for pred in ({"var": pth}, {"var": [pth]}, {"!!": [{"var": pth}]}):
@@ -288,6 +312,15 @@ def s_pairs(ops, helpers, tier, g, triples=False):
                 if isinstance(a, float) and isinstance(b, float): out.append(app({k: [a, b]}, None))
             for h in helpers:
                 out.append(h + " " + enc(a) + " " + enc(b))
+    # the same operators inside the predicate / body of every higher-order operator: the element against a constant, both ways round
+    hpool = [1, 1.0, -0.0, 0, "1", [1], [[1]], [], [[]], None, True, "a", "", 2 ** 53, float(2 ** 53), 2 ** 53 + 1, {"k": 1}, "é", 1.5, "1.0", [1, 2]]
+    for c in hpool:
+        if G.is_op_shaped(c) or isinstance(c, dict): continue
+        for k in ops:
+            for pred in ({k: [{"var": ""}, c]}, {k: [c, {"var": ""}]}):
+                for q in ("all", "some", "none", "filter", "map"):
+                    out.append(app({q: [{"var": "xs"}, pred]}, {"xs": hpool})); out.append(app({q: [{"merge": [{"var": "xs"}]}, pred]}, {"xs": [c, 1.0, [1]]}))
+                out.append(app({"reduce": [{"var": "xs"}, {"or": [{"var": "accumulator"}, {k: [{"var": "current"}, c]}]}, False]}, {"xs": hpool}))
     # through var: operands arrive as evaluated values (and may be the same value twice)
     pool = [v for v in vals]
     for _ in range(3000 if tier == "quick" else 60000):
@@ -304,8 +337,20 @@ NUMPOOL = NUMS + [v for v in NUMSTRS] + [[3], ["4"], [], [1, 2], [None], None, T
                                          2 ** 53 + 2, 2 ** 63 - 1024, 2 ** 63 + 2048, 2 ** 64 - 2048, 0.3, 1e308, -1e308, 3.0, 4.5, 1e22, 2.5, 3.5, -3.5, 7, -7]
 
 
-def s_arith(g, tier):
+def s_unbracketed(ops):
+    """an operand written without the enclosing array that is itself an operation yielding an array (or not), for the given operators"""
     out = []
+    makers = [({"var": "l2"}, {"l2": [1, 2]}), ({"var": "l0"}, {"l0": []}), ({"var": "lb"}, {"lb": [True]}), ({"var": "ln"}, {"ln": [None]}), ({"var": "ls"}, {"ls": ["a", "b", "c"]}), ({"merge": [[3, 7]]}, None),
+              ({"map": [[1, 2], {"var": ""}]}, None), ({"filter": [[1, 2], False]}, None), ({"var": ""}, [3, 7]), ({"var": "l1"}, {"l1": [5]}), ({"if": [True, [1, 2]]}, None), ({"var": "nest"}, {"nest": [[1, 2]]}),
+              ({"var": "s"}, {"s": "x"}), ({"var": "n"}, {"n": 4}), ({"cat": ["a", "b"]}, None), ({"var": "zz"}, {})]
+    for opk in ops:
+        for mk, dd in makers:
+            out += [app({opk: mk}, dd), app({opk: [mk]}, dd), app({opk: [mk, mk]}, dd)]
+    return out
+
+
+def s_arith(g, tier):
+    out = s_unbracketed(["+", "-", "*", "/", "%", "min", "max"])
     ops = ["+", "-", "*", "/", "%", "min", "max"]
     pool = NUMPOOL
     for k in ops:
@@ -647,7 +692,7 @@ def s_merge_in(g, tier):
 
 def s_cat_substr(g, tier):
     """C16"""
-    out = []
+    out = s_unbracketed(["cat", "substr"])
     alphabet = ["a", "é", "€", "😀"]
     maxlen = 4 if tier == "quick" else 5
     idxs = list(range(-7, 8)) + [I64MIN, I64MAX, I64MIN + 1, 2 ** 32, -2 ** 32]
@@ -723,6 +768,15 @@ def s_depth(levels=(20, 63)):
             for _ in range(lv // 2):
                 inner = {k: [[inner], True if k != "none" else False]}
             out.append(app(inner, None))
+    # a malformed leaf under deep chains: every way a rule can be rejected, below every operator, must be rejected promptly
+    bad_leaves = [{"<": 1}, {"==": [1]}, {"in": "x"}, {"substr": "abc"}, {"map": 1}, {"reduce": [1]}, {"-": [1, 2, 3]}, {"/": 4}, {"missing_some": 1}, {"!": [1, 2]}, {"var": [1, 2, 3]}, {"unknown_op": 1}]
+    for lv in (24, 40, 63):
+        for k, neutral, poss in NEST_TEMPLATES:
+            for leaf in (bad_leaves if lv == 24 else bad_leaves[:4]):
+                inner = leaf
+                for _ in range(lv):
+                    inner = nest(k, poss[0], inner, neutral)
+                out.append(app(inner, {"a": 1}))
     # very long SHALLOW operand lists (a recursive implementation would need one stack frame per operand)
     for n in (3000, 12000):
         out += [app({"if": [0, 0] * n + [1]}, None), app({"?:": [False, "x"] * n}, None), app({"or": [0] * (2 * n) + ["last"]}, None), app({"and": [1] * (2 * n) + ["last"]}, None),
